@@ -40,3 +40,90 @@ mut("c01-and-skips-last-word", "C01",
     for (t1, t2) in table1[..len].iter_mut().zip(table2.iter()) {
         *t1 &= t2;
     }"""))
+
+# ---------------------------------------------------------------- C03
+mut("c03-from-cofactors-ignores-t0-above-7", "C03",
+    "from_cofactors_inplace takes both halves from t1 when ind > 7",
+    ("src/operations.rs",
+     """            if i & stride == 0 {
+                table[i] = t0[i];
+            } else {""",
+     """            if i & stride == 0 && ind <= 7 {
+                table[i] = t0[i];
+            } else {"""))
+mut("c03-swap-hi-hi-wrong-for-far-indices", "C03",
+    "word-swap regime of swap_inplace does nothing when the indices are more than 3 apart",
+    ("src/operations.rs",
+     """            if mi & k == 0 && mj & k != 0 {""",
+     """            if mi & k == 0 && mj & k != 0 && i - j <= 3 {"""))
+mut("c03-flip-lo-carry", "C03",
+    "flip_inplace in-word path shifts with the wrong mask for variable 5 of multi-word tables",
+    ("src/operations.rs",
+     """        let m0 = !VAR_MASK[ind];
+        for t in table {
+            *t = ((*t & m1) >> shift) + ((*t & m0) << shift);""",
+     """        let m0 = if ind == 5 && num_vars > 9 { !VAR_MASK[ind] >> 1 } else { !VAR_MASK[ind] };
+        for t in table {
+            *t = ((*t & m1) >> shift) + ((*t & m0) << shift);"""))
+mut("c03-cofactor1-lo-hi-n11", "C03",
+    "cofactor1_inplace stride path copies the wrong way for stride >= 16 words",
+    ("src/operations.rs",
+     """            if i & stride == 0 {
+                table[i] = table[i + stride];
+            }""",
+     """            if i & stride == 0 {
+                if stride >= 16 {
+                    table[i + stride] = table[i];
+                } else {
+                    table[i] = table[i + stride];
+                }
+            }"""))
+
+# ---------------------------------------------------------------- C11
+mut("c11-symmetric-uses-word-index", "C11",
+    "fill_symmetric uses the word index instead of its popcount",
+    ("src/operations.rs",
+     "        let cnt = usize::count_ones(i) as usize;",
+     "        let cnt = if i < 4 { usize::count_ones(i) as usize } else { i.trailing_zeros() as usize + 1 - (i.is_power_of_two() as usize) * 0 };"))
+mut("c11-threshold-off-by-one-large", "C11",
+    "fill_threshold treats k == num_vars as out of range",
+    ("src/operations.rs",
+     "    } else if k > num_vars {\n        fill_zero(num_vars, table);\n    } else {\n        fill_symmetric(num_vars, table, !0usize - (1 << k) + 1);",
+     "    } else if k > num_vars || (k == num_vars && num_vars > 9) {\n        fill_zero(num_vars, table);\n    } else {\n        fill_symmetric(num_vars, table, !0usize - (1 << k) + 1);"))
+mut("c11-nth-var-stride", "C11",
+    "fill_nth_var uses the wrong stride for variables above 9",
+    ("src/operations.rs",
+     "        let mask = 1 << (ind - 6);\n        for (i, t) in table.iter_mut().enumerate() {",
+     "        let mask = if ind > 9 { 1 << (ind - 7) } else { 1 << (ind - 6) };\n        for (i, t) in table.iter_mut().enumerate() {"))
+mut("c11-equals-revert-fix", "C11",
+    "fill_equals without the k > num_vars guard (the repaired defect D4 comes back)",
+    ("src/operations.rs",
+     "    if k > num_vars {\n        fill_zero(num_vars, table);\n    } else {\n        fill_symmetric(num_vars, table, 1 << k);\n    }",
+     "    fill_symmetric(num_vars, table, 1 << k);"))
+
+# ---------------------------------------------------------------- C09
+mut("c09-revert-sign-fix", "C09",
+    "fill_hex goes back to the is_ascii check only (leading '+' accepted again, D1)",
+    ("src/operations.rs",
+     "    if !s.bytes().all(|c| c.is_ascii_hexdigit()) {",
+     "    if !s.is_ascii() {"))
+mut("c09-no-ascii-check", "C09",
+    "fill_hex checks only the byte length: multi-byte text whose byte length matches slices inside a character and panics",
+    ("src/operations.rs",
+     "    if !s.bytes().all(|c| c.is_ascii_hexdigit()) {\n        return Err(());\n    }\n",
+     ""))
+mut("c09-chunks-lsb-first", "C09",
+    "fill_hex fills the words least-significant first for tables of more than 16 words",
+    ("src/operations.rs",
+     "    for (i, t) in table.iter_mut().rev().enumerate() {\n        let ss",
+     "    let big = table.len() > 16;\n    for (i, t) in table.iter_mut().rev().enumerate() {\n        let i = if big { (1usize << (num_vars - 6)) - 1 - i } else { i };\n        let ss"))
+mut("c09-to-bin-width", "C09",
+    "to_bin pads 4-variable tables to 32 digits",
+    ("src/operations.rs",
+     "    let width = if num_vars >= 6 { 64 } else { 1 << num_vars };",
+     "    let width = if num_vars >= 6 { 64 } else if num_vars == 4 { 32 } else { 1 << num_vars };"))
+mut("c09-hex-width-n13", "C09",
+    "to_hex drops leading zeros of the top word for tables of 128 words or more",
+    ("src/operations.rs",
+     "    for t in table.iter().rev() {\n        s.push_str(&format!(\"{:0width$x}\", t));\n    }",
+     "    for (k, t) in table.iter().rev().enumerate() {\n        if k == 0 && table.len() >= 128 {\n            s.push_str(&format!(\"{:x}\", t));\n        } else {\n            s.push_str(&format!(\"{:0width$x}\", t));\n        }\n    }"))
